@@ -173,8 +173,8 @@ theorem quit_step (s : St) (o : Op) (h : s.quit = true) : (step s o).quit = true
       show (St.poolAdjust _ none none).1.quit = true
       rw [quit_poolAdjust]; exact h
     | pStop => exact quit_teamQuit { s with joined := true, started := false, limit := 0 } h
-    | pCall t r =>
-      show (s.poolCall t r).quit = true
+    | pCall t r cb =>
+      show (s.poolCall t r cb).quit = true
       unfold St.poolCall
       split
       · exact h
